@@ -27,6 +27,8 @@ def catalogue():
         mf = os.path.join(d, "meta.json")
         if os.path.exists(pf) and os.path.exists(mf):
             meta = json.load(open(mf))
+            if meta.get("status") == "obsolete":
+                continue
             props = meta.get("property")
             props = props if isinstance(props, list) else [props]
             out.append({"name": "seeded/" + os.path.basename(d), "props": props, "patch": pf})
